@@ -116,6 +116,27 @@ def run(pid, tier, seed):
             if all(trans[s][k][1] == s for k in keys):
                 scripts.append((i0, word))
                 seen_paths += 1
+    # the buffer may keep state the abstract state does not show (cursors, cached lengths): besides covering every
+    # edge, walk many whole paths per frame sequence (random chunking, 0-2 pulls after every push, a final drain)
+    per_init = 40 if tier == "quick" else 400
+    for i0 in inits:
+        for _ in range(per_init):
+            s = i0
+            word = []
+            for _step in range(40):
+                pushes = [k for k in trans[s] if k[0] == "push"]
+                if not pushes:
+                    break
+                k = rng.choice(pushes)
+                word.append(k)
+                s = trans[s][k][1]
+                for _p in range(rng.choice([0, 1, 1, 2, 3])):
+                    word.append(("pull",))
+                    s = trans[s][("pull",)][1]
+            for _p in range(4):
+                word.append(("pull",))
+                s = trans[s][("pull",)][1]
+            scripts.append((i0, word))
     js = []
     for n, (i0, word) in enumerate(scripts):
         steps = [{"a": "push", "bytes": list(k[1])} if k[0] == "push" else {"a": "pull"} for k in word]
